@@ -4,6 +4,7 @@ package harness
 // into errors.
 
 import (
+	"bufio"
 	"bytes"
 	"fmt"
 	"os"
@@ -84,6 +85,28 @@ func PersistCh(seg segment.Segment, closeCh chan struct{}) (out []byte, err erro
 		return nil
 	})
 	return out, err
+}
+
+// PersistBufio writes the segment into the caller's own *bufio.Writer of the
+// given size (bufio.NewWriter hands such a writer back unchanged when asked to
+// wrap it), flushes it as its owner would, and returns the bytes that arrived
+// and the count WriteTo reported.
+func PersistBufio(seg segment.Segment, size int) (out []byte, n int64, err error) {
+	err = safely("WriteTo(bufio destination)", func() error {
+		var dst bytes.Buffer
+		own := bufio.NewWriterSize(&dst, size)
+		var e error
+		n, e = seg.WriteTo(own, nil)
+		if e != nil {
+			return e
+		}
+		if e = own.Flush(); e != nil {
+			return e
+		}
+		out = dst.Bytes()
+		return nil
+	})
+	return out, n, err
 }
 
 func LoadMem(b []byte) (seg segment.Segment, err error) {
